@@ -901,3 +901,47 @@ Proof.
   apply (Permutation_map m_index) in Er. rewrite map_app, !map_map in Er.
   eapply Permutation_NoDup in Hn; [|exact Er]. eapply NoDup_app_remove_l. exact Hn.
 Qed.
+
+(* ---------------------------------------------------------------- what the function reads of the lifecycle table *)
+(* the table enters through [lc_start] of the looked-up id only: (changing) tables that give the same start for the
+   lifecycle ids of the non-control messages of the stream give the same run — same output, same panic *)
+Lemma calc_time_ext (t1 t2 : table) c m :
+  (m_ctrl m = false -> lc_start t1 (m_lc m) = lc_start t2 (m_lc m)) -> calc_time t1 c m = calc_time t2 c m.
+Proof.
+  unfold calc_time, get_lc_start, lc_start. intros H. destruct (m_ctrl m); [reflexivity|].
+  rewrite (H eq_refl). reflexivity.
+Qed.
+
+Lemma process_ext pick w mind (l1 l2 : tables) s m :
+  (m_ctrl m = false -> forall i np, lc_start (l1 i np) (m_lc m) = lc_start (l2 i np) (m_lc m)) ->
+  process pick w mind l1 s m = process pick w mind l2 s m.
+Proof.
+  intros H. unfold process.
+  rewrite (calc_time_ext (l1 (s_pos s) (s_np s)) (l2 (s_pos s) (s_np s))); [reflexivity|].
+  intros Hc. apply H. exact Hc.
+Qed.
+
+Lemma run_state_ext pick w mind (l1 l2 : tables) : forall input s,
+  (forall m, In m input -> m_ctrl m = false -> forall i np, lc_start (l1 i np) (m_lc m) = lc_start (l2 i np) (m_lc m)) ->
+  run_state pick w mind l1 s input = run_state pick w mind l2 s input.
+Proof.
+  induction input as [|m r IH]; intros s H; [reflexivity|]. cbn [run_state].
+  rewrite (process_ext pick w mind l1 l2 s m); [|apply H; left; reflexivity].
+  destruct (process pick w mind l2 s m) as [[o s']| |]; [|reflexivity|reflexivity]. cbn [bind].
+  rewrite (IH s'); [reflexivity|]. intros m' Hm'. apply H. right. exact Hm'.
+Qed.
+
+Theorem run_ext pick w mind (l1 l2 : tables) input :
+  (forall m, In m input -> m_ctrl m = false -> forall i np, lc_start (l1 i np) (m_lc m) = lc_start (l2 i np) (m_lc m)) ->
+  run pick w mind l1 input = run pick w mind l2 input.
+Proof.
+  intros H. unfold run, run_entries. rewrite (run_state_ext pick w mind l1 l2 input (init mind) H). reflexivity.
+Qed.
+
+(* the key under which a message is sorted (fixed table) is the calculated time of the specification *)
+Lemma run_entries_key_spec pick w mind (lcs : table) input o :
+  run_entries pick w mind (fixed lcs) input = Ok o -> Forall (fun e => fst e = calc_spec lcs (snd e)) o.
+Proof.
+  intros H. apply run_entries_keys in H. rewrite H. apply Forall_forall. intros e He.
+  apply in_map_iff in He. destruct He as [m [Hm _]]. subst e. reflexivity.
+Qed.
